@@ -107,11 +107,6 @@ func (g *Gate) Hook(c int) Interposer {
 			g.mu.Unlock()
 			return nil
 		}
-		// coalesce back-to-back HEAD reads of one client
-		if lbl == "rh" && g.lastC == c && g.lastLbl == "rh" {
-			g.mu.Unlock()
-			return nil
-		}
 		req := &gateReq{lbl: lbl, n: n, path: o.Path, grant: make(chan error, 1)}
 		g.pending[c] = req
 		g.state[c] = "blocked"
